@@ -114,7 +114,7 @@ ASSUMPTIONS = [
 ]
 TRUSTED = ["extraction rewrite tables of units/C18.py (incl. the lambda -> loop rendering)", "stubs in units/C18/*.c (FN, clock, c1/c2, hasExactSolution, FMUL, FDIV, do_terminate)", "CBMC 6.11 (DFCC, minisat/kissat)"]
 NOT_COVERED = ["periodic evaluation thread: 'no later than one period afterwards' (concurrency)", "IterationTerminationCondition -> PlannerTerminationCondition conversion operator (std::function plumbing)",
-               "CostConvergence constructor's callback registration"]
+               "CostConvergence constructor's callback registration", "Planner::solve(double): only which condition is built (duration, polling period); the timed lambda itself is the c18_factory_timed unit"]
 
 C18_CPPS = ["src/ompl/base/src/PlannerTerminationCondition.cpp", "src/ompl/base/terminationconditions/src/IterationTerminationCondition.cpp",
             "src/ompl/base/terminationconditions/src/CostConvergenceTerminationCondition.cpp"]
